@@ -389,15 +389,16 @@ pub fn refresh_outputs<'a, T: ?Sized, C, K>(
 	keychain_mask: Option<&SecretKey>,
 	parent_key_id: &Identifier,
 	update_all: bool,
-) -> Result<(), Error>
+) -> Result<(u64, String), Error>
 where
 	T: WalletBackend<'a, C, K>,
 	C: NodeClient + 'a,
 	K: Keychain + 'a,
 {
-	let height = wallet.w2n_client().get_chain_tip()?.0;
-	refresh_output_state(wallet, keychain_mask, height, parent_key_id, update_all)?;
-	Ok(())
+	let tip = wallet.w2n_client().get_chain_tip()?;
+	refresh_output_state(wallet, keychain_mask, tip.0, parent_key_id, update_all)?;
+	// (the chain tip this refresh has seen)
+	Ok((tip.0, tip.1))
 }
 
 /// build a local map of wallet outputs keyed by commit
